@@ -719,6 +719,12 @@ where
                 &mut notify_change,
             )?;
 
+            #[cfg(feature = "case-resumption")]
+            if let Some(fab_idx) = removed_fabric {
+                state.resumption.remove_for_fabric(fab_idx);
+                self.matter.transport().notify_resumption_dirty();
+            }
+
             // Close the commissioning window on timeout
             state
                 .pase
